@@ -3,7 +3,7 @@
 set -e
 cd "$(dirname "$0")"
 export PYTHONPATH="${VERIF_REPO:-/repo}:$(pwd)" PYTHONHASHSEED=0 PYTHONDONTWRITEBYTECODE=1
-/venv/bin/python -m harness.extract_constants > /dev/null
+/venv/bin/python -c "from harness import common; import sys; ok,m=common.regenerate_all(); print(m); sys.exit(0 if ok else 1)"
 /venv/bin/python -c "from harness import common; common.write_coqproject()"
 cd coq
 coq_makefile -f _CoqProject -o Makefile
